@@ -15,6 +15,9 @@ SPEC = Spec(
         Harness(name="dec", module="internal/e2e", pkg="internal/e2e", common=False,
                 files=dict(_E2E, **{"zz_verif_c13_dec_test.go": "c13/dec_test.go"}),
                 test="TestVerifC13Dec", driver="drv_c13", n={"quick": 2000, "thorough": 30000}, timeout_s=1200),
+        Harness(name="load", module="cmd/otelcorecol", pkg="cmd/otelcorecol",
+                files={"zz_verif_c13_load_test.go": "c13/load_test.go"},
+                test="TestVerifC13Load", driver="drv_c13", n={"quick": 300, "thorough": 4000}, timeout_s=1200),
     ],
     rule="walk: generated trees over a fixed family of Go node types (structs/slices/arrays/maps/leaves with value-receiver, "
          "pointer-receiver or no Validate; children in interface, typed-pointer, exported, unexported, squash-tagged and untagged fields; "
@@ -25,6 +28,12 @@ SPEC = Spec(
          "and configuration maps writing a random subset of keys, with an unknown key inserted at a random depth in half of the cases, "
          "through confmap.Conf.Unmarshal; non-trivial = an unknown key below the top level. Corpus cases first: every built-in factory's "
          "configuration (unknown key at every struct position, written-key/sibling/effective-config oracles, sizer and blocking witnesses). "
+         "load: whole collector configurations through the real otelcol.ConfigProvider.Get with the otelcorecol factories (otlp/nop receivers, "
+         "otlp/otlphttp/debug/nop exporters, batch/memory_limiter processors, zpages/memory_limiter extensions, forward connector): 0-3 instances "
+         "per type, each writing its own subset of boolean/numeric settings, endpoints and secret-bearing settings (headers / response_headers "
+         "maps, tls pem fields); per instance the typed config is compared (DeepEqual) with the isolated load of its own keys on a fresh factory "
+         "default and the effective configuration (confmap.Marshal of the whole otelcol.Config, as collector.go does for ConfigWatcher) leaf by "
+         "leaf, secrets must be exactly the marker; non-trivial = two or more instances of one type. "
          "distinct = distinct op sequences (sha1 of the op lines).",
     trusted_base=[
         "Lean 4.33.0 kernel; axioms per theorem listed under axioms_per_theorem (subset of propext, Classical.choice, Quot.sound)",
@@ -33,6 +42,8 @@ SPEC = Spec(
         "error of a phase is reported: the model returns the admissible set, the reported one is monitored for membership",
         "hand-written strictness model of mapstructure decoding as configured by confmap (ErrorUnused, squash, pointers, no weak typing), "
         "tied by exact differential (ok/error) on reflect-built types; mapstructure itself is library code",
+        "load model (fresh default object per id, overlay of the instance's own keys): the per-instance defaults fed to the model are the effective "
+        "configuration of the isolated component-level load (implementation-observed input, itself covered by the dec harness)",
         "no translator: the schemas of the built-in configurations are not regenerated into Lean; they are exercised on the real structs by the harness",
     ],
     assumptions=[
